@@ -148,6 +148,183 @@ def propagate_const_temps(body, first_new):
     return len(consts)
 
 
+def sroa(body):
+    """scalar replacement of aggregates: a local that is only ever (a) built whole as a struct / tuple, (b) moved or copied whole into
+    another such local and (c) read field by field is split into one local per field.  A helper that returns `(value, removed, count)`
+    or a small struct which its caller destructures thereby hands over plain values again, as the code did before the helper existed,
+    and copy-based value flow sees through it."""
+    blocks = body["blocks"]
+    nloc = len(body["locals"])
+    whole_defs, bad = {}, set()
+    arity = {}
+
+    def single_field(pl):
+        pr = pl["proj"]
+        return len(pr) >= 1 and isinstance(pr[0], dict) and "field" in pr[0] and isinstance(pr[0]["field"], int)
+
+    def scan_operand(o, ctx_whole_dst=None):
+        pl = o.get("move") or o.get("copy") if isinstance(o, dict) else None
+        if not pl:
+            return
+        if not pl["proj"]:
+            if ctx_whole_dst is None:
+                bad.add(pl["local"])
+        elif not single_field(pl):
+            bad.add(pl["local"])
+        for e in pl["proj"]:
+            if isinstance(e, dict) and "index" in e:
+                bad.add(e["index"])
+    for blk in blocks:
+        for st in blk["stmts"]:
+            if st["k"] in ("storage_live", "storage_dead"):
+                continue
+            if st["k"] != "assign":
+                for v in st.values():
+                    if isinstance(v, dict) and "local" in v:
+                        bad.add(v["local"])
+                continue
+            d, rv = st["dst"], st["rv"]
+            if d["proj"]:
+                bad.add(d["local"])
+            if "agg" in rv:
+                a = rv["agg"]
+                structlike = ("tuple" in a) or ("adt" in a and len(a.get("fields", [])) == len(rv["ops"]) and a.get("variant_count", 1) == 1
+                                                and not a["adt"].startswith(("std::option", "core::option", "std::result", "core::result")))
+                if not d["proj"] and structlike and "closure" not in a:
+                    whole_defs.setdefault(d["local"], []).append(("agg", st))
+                    n0 = len(rv["ops"])
+                    if arity.setdefault(d["local"], n0) != n0:
+                        bad.add(d["local"])
+                elif not d["proj"]:
+                    bad.add(d["local"])
+                for o in rv["ops"]:
+                    scan_operand(o)
+            elif "use" in rv:
+                pl = rv["use"].get("move") or rv["use"].get("copy")
+                if pl and not pl["proj"] and not d["proj"]:
+                    whole_defs.setdefault(d["local"], []).append(("copy", st))     # validated below
+                else:
+                    if not d["proj"]:
+                        bad.add(d["local"]) if False else None
+                    scan_operand(rv["use"])
+            else:
+                for key in ("ref", "rawptr", "discr", "cast", "a", "b"):
+                    v = rv.get(key)
+                    if isinstance(v, dict) and "local" in v:
+                        bad.add(v["local"])
+                    elif isinstance(v, dict):
+                        scan_operand(v)
+                for o in rv.get("ops", []):
+                    scan_operand(o)
+        t = blk["term"]
+        for key in ("on", "cond"):
+            if key in t:
+                scan_operand(t[key])
+        for o in t.get("args", []):
+            scan_operand(o)
+        for key in ("dst", "place"):
+            if key in t and isinstance(t[key], dict) and "local" in t[key]:
+                bad.add(t[key]["local"])
+    cand = {l for l in whole_defs if l not in bad and l != 0 and l > body.get("args", 0)}
+    # every whole definition is an aggregate of the same arity or a whole copy from another candidate; plain locals that merely receive
+    # a whole copy of a non-candidate are not touched
+    changed = True
+    while changed:
+        changed = False
+        for l in list(cand):
+            ok = l in arity or any(k == "copy" for k, _ in whole_defs[l])
+            for k, st in whole_defs[l]:
+                if k == "copy":
+                    src = (st["rv"]["use"].get("move") or st["rv"]["use"].get("copy"))["local"]
+                    if src not in cand:
+                        ok = False
+                    elif src in arity:
+                        if arity.setdefault(l, arity[src]) != arity[src]:
+                            ok = False
+            if l not in arity:
+                ok = ok and any(k == "copy" for k, _ in whole_defs[l])
+            if not ok:
+                cand.discard(l)
+                changed = True
+    # whole copies OUT of a candidate into a non-candidate would lose the value: such sources are not candidates either
+    changed = True
+    while changed:
+        changed = False
+        for blk in blocks:
+            for st in blk["stmts"]:
+                if st["k"] == "assign" and "use" in st["rv"] and not st["dst"]["proj"]:
+                    pl = st["rv"]["use"].get("move") or st["rv"]["use"].get("copy")
+                    if pl and not pl["proj"] and pl["local"] in cand and st["dst"]["local"] not in cand:
+                        cand.discard(pl["local"])
+                        changed = True
+        for l in list(cand):
+            if l not in arity:
+                cand.discard(l)
+                changed = True
+            for k, st in whole_defs[l]:
+                if k == "copy" and (st["rv"]["use"].get("move") or st["rv"]["use"].get("copy"))["local"] not in cand:
+                    cand.discard(l)
+                    changed = True
+    if not cand:
+        return 0
+    fld = {}
+    for l in sorted(cand):
+        for i in range(arity[l]):
+            body["locals"].append({"s": "?", "head": "?", "base": "?", "refs": 0, "sroa_of": [l, i]})
+            fld[(l, i)] = len(body["locals"]) - 1
+
+    def set_ty(nl, o, src_body=body):
+        pl = o.get("move") or o.get("copy")
+        if pl and not pl["proj"]:
+            t0 = dict(body["locals"][pl["local"]])
+            t0.pop("name", None)
+            t0["sroa_of"] = body["locals"][nl]["sroa_of"]
+            body["locals"][nl] = t0
+        elif "const" in o and "ty" in o:
+            body["locals"][nl].update({"s": o["ty"], "head": o["ty"], "base": o["ty"]})
+    for blk in blocks:
+        out = []
+        for st in blk["stmts"]:
+            if st["k"] in ("storage_live", "storage_dead") and st["local"] in cand:
+                for i in range(arity[st["local"]]):
+                    out.append({"k": st["k"], "local": fld[(st["local"], i)]})
+                continue
+            if st["k"] == "assign":
+                d, rv = st["dst"], st["rv"]
+                if not d["proj"] and d["local"] in cand:
+                    if "agg" in rv:
+                        for i, o in enumerate(rv["ops"]):
+                            set_ty(fld[(d["local"], i)], o)
+                            out.append({"k": "assign", "dst": {"local": fld[(d["local"], i)], "proj": []}, "rv": {"use": o}, "span": st.get("span", ""), "sroa": True})
+                        continue
+                    pl = rv["use"].get("move") or rv["use"].get("copy")
+                    key = "move" if "move" in rv["use"] else "copy"
+                    for i in range(arity[d["local"]]):
+                        t0 = dict(body["locals"][fld[(pl["local"], i)]])
+                        t0["sroa_of"] = [d["local"], i]
+                        body["locals"][fld[(d["local"], i)]] = t0
+                        out.append({"k": "assign", "dst": {"local": fld[(d["local"], i)], "proj": []},
+                                    "rv": {"use": {key: {"local": fld[(pl["local"], i)], "proj": []}}}, "span": st.get("span", ""), "sroa": True})
+                    continue
+                if "use" in rv:
+                    pl = rv["use"].get("move") or rv["use"].get("copy")
+                    if pl and pl["local"] in cand and pl["proj"]:
+                        i = pl["proj"][0]["field"]
+                        pl["local"] = fld[(pl["local"], i)]
+                        pl["proj"] = pl["proj"][1:]
+            out.append(st)
+        blk["stmts"] = out
+        t = blk["term"]
+        for o in [t.get("on"), t.get("cond")] + list(t.get("args", [])):
+            if isinstance(o, dict):
+                pl = o.get("move") or o.get("copy")
+                if pl and pl["local"] in cand and pl["proj"]:
+                    i = pl["proj"][0]["field"]
+                    pl["local"] = fld[(pl["local"], i)]
+                    pl["proj"] = pl["proj"][1:]
+    return len(cand)
+
+
 def inline_call(caller, bi, callee):
     """splice `callee` (raw body dict) into `caller` at the call terminating block bi (in place)"""
     blk = caller["blocks"][bi]
@@ -528,6 +705,10 @@ def inline_new_helpers(raw, log=None):
             break
     for b in bodies:
         if b.get("inlined"):
+            try:
+                sroa(b)
+            except Exception:      # the transformation is an optimisation of precision only
+                pass
             for _ in range(3):
                 if not propagate_const_temps(b, b.get("first_inlined_local", len(b["locals"]))):
                     break
